@@ -1987,9 +1987,18 @@ class StreamingDecoder(object):
 
     def __iter__(self):
         while True:
-            for asn1Object in self._singleItemDecoder(
-                    self._substrate, self._asn1Spec, **self._options):
-                yield asn1Object
+            scopeDepth = len(debug.scope)
+
+            try:
+                for asn1Object in self._singleItemDecoder(
+                        self._substrate, self._asn1Spec, **self._options):
+                    yield asn1Object
+
+            except error.PyAsn1Error:
+                # the item was abandoned half-way: leave no stale entries
+                # behind on the process-wide logging scope
+                debug.scope.truncate(scopeDepth)
+                raise
 
             for chunk in isEndOfStream(self._substrate):
                 if isinstance(chunk, SubstrateUnderrunError):
